@@ -184,7 +184,9 @@ namespace {
         g_finalized = true;
     }
 
-    void do_stop()
+    // late: stop() is entered before finalize(); a plain OS thread submits more work (that spawns children
+    // and yields) and only then calls finalize(). stop() must still return only after all of it has run.
+    void do_stop(bool late = false, int n = 0, int nchild = 0, int yields = 0)
     {
         join_racers();
         if (g_state == SUSPENDED)
@@ -193,9 +195,26 @@ namespace {
             pika::resume();
             g_state = RUNNING;
         }
-        do_finalize(false);
+        std::thread finalizer;
+        if (late && !g_finalized)
+        {
+            finalizer = std::thread([n, nchild, yields] {
+                for (int y = 0; y < 1 + yields; y++) std::this_thread::yield();
+                for (int i = 0; i < n; i++)
+                {
+                    submit_one(new_tok(-1), nchild, yields);
+                    std::this_thread::yield();
+                }
+                pika::finalize();
+            });
+            g_finalized = true;
+            probe("stop_entered_before_finalize");
+        }
+        else
+            do_finalize(false);
         int inc = g_incarnation;
         int rv = pika::stop();
+        if (finalizer.joinable()) finalizer.join();
         g_state = DOWN;
         int events = g_body_events;
         VH_CHECK(g_entry_ran, "C05.entry_not_run", "stop() returned but the entry function never ran");
@@ -339,7 +358,7 @@ namespace {
                 if (g_state == RUNNING) do_finalize(a & 1);
                 break;
             case OP_STOP:
-                if (g_state != DOWN) do_stop();
+                if (g_state != DOWN) do_stop(op.v[4] == 1, a, b, c);
                 break;
             case OP_MISUSE:
                 if (g_state == RUNNING && !g_finalized)
